@@ -67,6 +67,8 @@ def rules(ctx):
     c095(ctx)
     c096(ctx)
     c097(ctx)
+    from . import C13
+    C13.c131(ctx)    # the manifest reader drops an unfinished edit only at the end of its input
 
 
 def c091(ctx):
